@@ -10,22 +10,46 @@ Open Scope string_scope.
 Open Scope list_scope.
 
 (* ---------------------------------------------------------------- the replacement branch *)
-(* the _id the replacement branch keeps: the FILTER's _id when it has one, else the document's *)
+(* the _id the replacement branch keeps: the _id of the document being replaced (for an upsert: of
+   the seed built from the filter), a null _id counting as absent; the FILTER is not consulted
+   any more (repaired in the library; `spec` is kept as an argument for the callers) *)
 Definition rep_id (spec d : value) : option value :=
-  match spec with
-  | VDoc sfs => match assoc "_id" sfs with
-                | Some i => Some i
-                | None => match d with VDoc dfs => assoc "_id" dfs | _ => None end
+  match d with
+  | VDoc dfs => match assoc "_id" dfs with
+                | Some i => if is_null i then None else Some i
+                | None => None
                 end
   | _ => None
   end.
 Definition rep_base (id : option value) : list (string * value) :=
   match id with
-  | Some i => if is_null i then [] else [("_id", i)]
+  | Some i => [("_id", i)]
   | None => []
   end.
 Definition rep_merged (upd base : list (string * value)) : list (string * value) :=
   fold_left (fun acc kv => set_key (fst kv) (snd kv) acc) upd base.
+
+Lemma rep_id_not_null spec d i : rep_id spec d = Some i -> is_null i = false.
+Proof.
+  unfold rep_id. destruct d as [| | | | | | |dfs|]; try discriminate.
+  destruct (assoc "_id" dfs) as [j|]; [|discriminate].
+  destruct (is_null j) eqn:E; [discriminate|]. intro H. inversion H; subst. exact E.
+Qed.
+
+Lemma rep_id_doc_id spec d i : rep_id spec d = Some i -> doc_id d = Some i.
+Proof.
+  unfold rep_id, doc_id. destruct d as [| | | | | | |dfs|]; try discriminate.
+  destruct (assoc "_id" dfs) as [j|]; [|discriminate].
+  destruct (is_null j); [discriminate|]. intro H. exact H.
+Qed.
+
+(* no kept _id: the document has none, or a null one *)
+Lemma rep_id_none spec d : rep_id spec d = None -> doc_id d = None \/ doc_id d = Some VNull.
+Proof.
+  unfold rep_id, doc_id. destruct d as [| | | | | | |dfs|]; try (left; reflexivity).
+  destruct (assoc "_id" dfs) as [j|]; [|left; reflexivity].
+  destruct j; simpl; try discriminate. right. reflexivity.
+Qed.
 
 Lemma sd_neq k s : starts_dollar k = false -> starts_dollar s = true -> (k =? s) = false.
 Proof.
@@ -39,10 +63,13 @@ Lemma apply_update_key_replace spec upd now k v d :
   if existsb (fun kv => starts_dollar (fst kv)) upd then Err EValue else
   let id := rep_id spec d in
   let merged := rep_merged upd (rep_base id) in
-  match assoc "_id" merged, id with
-  | Some now_id, Some i => if py_eq now_id i then Ok (VDoc merged, true) else Err EOpFail
-  | Some _, None => Err EOpFail
-  | None, _ => Err EKey
+  match id with
+  | Some i =>
+      match assoc "_id" merged with
+      | Some now_id => if py_eq now_id i then Ok (VDoc merged, true) else Err EOpFail
+      | None => Err EKey
+      end
+  | None => Ok (VDoc merged, true)
   end.
 Proof.
   intro H. unfold apply_update_key, updater_of.
@@ -79,9 +106,13 @@ Qed.
 
 (* ---------------------------------------------------------------- the guard *)
 (* the law demands that the _id is kept structurally; the model keeps the replacement's _id when
-   it carries one (only checked with Python == against the kept one) and otherwise the FILTER's
-   _id value when the filter has an "_id" key (an operator document such as {"$gt": 0}
-   included), so the law can only hold when those are the document's _id *)
+   it carries one (only checked with Python == against the kept one) and otherwise the _id of the
+   document being replaced, so the law can only fail when the replacement carries a structurally
+   different _id (the filter part of replace_id_risk is harmless now).
+   REPAIRED LIBRARY: a document whose _id is null counts as having none, so a replacement without
+   an _id is accepted on it and yields a document WITHOUT an _id (it used to be refused with
+   KeyError); the law is stated for results that have an _id in that case (the collection never
+   stores a result without one: pair_facts in Proofs/C02Step.v). *)
 Lemma opt_value_eqb_refl' o : opt_value_eqb o o = true.
 Proof. destruct o; simpl; [apply value_eqb_refl|reflexivity]. Qed.
 
@@ -90,9 +121,10 @@ Theorem replace_law_sound : forall spec r now d d',
   (exists rfs, r = VDoc rfs /\ rfs <> [] /\
                forallb (fun kv => negb (starts_dollar (fst kv))) rfs = true) ->
   replace_id_risk spec r d = false ->
+  (doc_id d = Some VNull -> doc_id d' <> None) ->
   apply_update spec r false now d = Ok d' -> replace_law r d d' = true.
 Proof.
-  intros spec r now d d' Hpatch Hwf [rfs [-> [Hne Hnd]]] Hrisk Hupd.
+  intros spec r now d d' Hpatch Hwf [rfs [-> [Hne Hnd]]] Hrisk Hnull Hupd.
   unfold replace_law. rewrite Hpatch.
   assert (Hnodup : NoDup (map fst rfs)).
   { simpl in Hwf. apply andb_true_iff in Hwf. apply nodup_str_NoDup. exact (proj1 Hwf). }
@@ -110,47 +142,66 @@ Proof.
   assert (Hex : existsb (fun kv => starts_dollar (fst kv)) rfs = false).
   { rewrite forallb_negb_existsb in Hnd. apply negb_true_iff. exact Hnd. }
   rewrite Hex in Hkey. cbv zeta in Hkey.
-  set (id := rep_id spec d) in *. set (merged := rep_merged rfs (rep_base id)) in *.
-  destruct (assoc "_id" merged) as [now_id|] eqn:Eid; [|discriminate].
-  destruct id as [i|] eqn:Eidv; [|discriminate].
-  destruct (py_eq now_id i); [|discriminate].
-  inversion Hkey; subst res0. inversion Hupd'; subst d'. clear Hkey Hupd'.
-  apply andb_true_iff. split; [apply andb_true_iff; split|].
-  - (* every field of the replacement is there *)
-    apply forallb_forall. intros [k1 v1] Hin. simpl.
-    unfold merged. rewrite merged_assoc by exact Hnodup.
-    rewrite (in_assoc _ _ _ Hnodup Hin). apply value_eqb_refl.
-  - (* nothing but the _id and the replacement *)
-    apply forallb_forall. intros [k1 v1] Hin. simpl.
-    apply (in_map fst) in Hin. simpl in Hin. apply merged_keys in Hin.
-    destruct Hin as [Hin|Hin].
-    + rewrite (has_key_In _ _ Hin). apply orb_true_r.
-    + unfold rep_base in Hin. destruct (is_null i); [destruct Hin|].
-      destruct Hin as [<-|[]]. reflexivity.
-  - (* the _id is kept *)
-    simpl doc_id. rewrite Eid.
-    unfold merged in Eid. rewrite merged_assoc in Eid by exact Hnodup.
-    unfold replace_id_risk in Hrisk.
-    destruct (assoc "_id" rfs) as [rv|] eqn:Er.
-    + inversion Eid; subst now_id. apply negb_false_iff in Hrisk. exact Hrisk.
-    + unfold rep_base in Eid. destruct (is_null i); [discriminate|].
-      simpl in Eid. inversion Eid; subst now_id. clear Eid.
-      unfold id, rep_id in Eidv.
-      destruct spec as [| | | | | | |sfs|]; try discriminate.
-      destruct (assoc "_id" sfs) as [si|].
-      * inversion Eidv; subst si. apply negb_false_iff in Hrisk. exact Hrisk.
-      * destruct d as [| | | | | | |dfs|]; try discriminate.
-        simpl. rewrite Eidv. simpl. apply value_eqb_refl.
+  destruct (rep_id spec d) as [i|] eqn:Eidv.
+  - (* the document has a (non-null) _id *)
+    set (merged := rep_merged rfs (rep_base (Some i))) in *.
+    destruct (assoc "_id" merged) as [now_id|] eqn:Eid; [|discriminate].
+    destruct (py_eq now_id i); [|discriminate].
+    inversion Hkey; subst res0. inversion Hupd'; subst d'. clear Hkey Hupd'.
+    apply andb_true_iff. split; [apply andb_true_iff; split|].
+    + apply forallb_forall. intros [k1 v1] Hin. simpl.
+      unfold merged. rewrite merged_assoc by exact Hnodup.
+      rewrite (in_assoc _ _ _ Hnodup Hin). apply value_eqb_refl.
+    + apply forallb_forall. intros [k1 v1] Hin. simpl.
+      apply (in_map fst) in Hin. simpl in Hin. apply merged_keys in Hin.
+      destruct Hin as [Hin|Hin].
+      * rewrite (has_key_In _ _ Hin). apply orb_true_r.
+      * simpl in Hin. destruct Hin as [<-|[]]. reflexivity.
+    + simpl doc_id. rewrite Eid.
+      unfold merged in Eid. rewrite merged_assoc in Eid by exact Hnodup.
+      unfold replace_id_risk in Hrisk.
+      destruct (assoc "_id" rfs) as [rv|] eqn:Er.
+      * inversion Eid; subst now_id. apply negb_false_iff in Hrisk. exact Hrisk.
+      * simpl in Eid. inversion Eid; subst now_id. clear Eid.
+        rewrite (rep_id_doc_id _ _ _ Eidv). simpl. apply value_eqb_refl.
+  - (* no _id, or a null one: the replacement is accepted as it is *)
+    set (merged := rep_merged rfs (rep_base None)) in *.
+    inversion Hkey; subst res0. inversion Hupd'; subst d'. clear Hkey Hupd'.
+    apply andb_true_iff. split; [apply andb_true_iff; split|].
+    + apply forallb_forall. intros [k1 v1] Hin. simpl.
+      unfold merged. rewrite merged_assoc by exact Hnodup.
+      rewrite (in_assoc _ _ _ Hnodup Hin). apply value_eqb_refl.
+    + apply forallb_forall. intros [k1 v1] Hin. simpl.
+      apply (in_map fst) in Hin. simpl in Hin. apply merged_keys in Hin.
+      destruct Hin as [Hin|Hin]; [|destruct Hin].
+      rewrite (has_key_In _ _ Hin). apply orb_true_r.
+    + simpl doc_id in *. unfold merged in *. rewrite merged_assoc in * by exact Hnodup.
+      unfold replace_id_risk in Hrisk.
+      destruct (assoc "_id" rfs) as [rv|] eqn:Er.
+      * apply negb_false_iff in Hrisk. exact Hrisk.
+      * simpl in *. destruct (rep_id_none _ _ Eidv) as [E|E].
+        -- rewrite E. reflexivity.
+        -- exfalso. apply (Hnull E). reflexivity.
 Qed.
+
+(* the extra premise cannot be dropped: checked on the model *)
+Example replace_law_null_id :
+  let d := VDoc [("_id", VNull); ("a", VInt 1)] in
+  let r := VDoc [("a", VInt 2)] in
+  replace_id_risk (VDoc []) r d = false /\
+  apply_update (VDoc []) r false 0 d = Ok (VDoc [("a", VInt 2)]) /\
+  replace_law r d (VDoc [("a", VInt 2)]) = false.
+Proof. vm_compute. repeat split; reflexivity. Qed.
 
 (* without an "_id" in the filter and in the replacement the guard is void *)
 Corollary replace_law_sound_noid : forall sfs rfs now d d',
   patch (VDoc rfs) = VDoc rfs -> wf_value (VDoc rfs) = true -> rfs <> [] ->
   forallb (fun kv => negb (starts_dollar (fst kv))) rfs = true ->
   assoc "_id" sfs = None -> assoc "_id" rfs = None ->
+  (doc_id d = Some VNull -> doc_id d' <> None) ->
   apply_update (VDoc sfs) (VDoc rfs) false now d = Ok d' -> replace_law (VDoc rfs) d d' = true.
 Proof.
-  intros sfs rfs now d d' Hp Hwf Hne Hnd Hs Hr Hupd.
+  intros sfs rfs now d d' Hp Hwf Hne Hnd Hs Hr Hnull Hupd.
   eapply replace_law_sound; try eassumption.
   - exists rfs. repeat split; assumption.
   - unfold replace_id_risk. rewrite Hr, Hs. reflexivity.
